@@ -15,6 +15,7 @@ package lib
 // station lifetime <= detector lifetime. (Equality at the boundaries is the `lifetimes` sub-check.)
 
 import (
+	"bytes"
 	"errors"
 	"fmt"
 	"sort"
@@ -22,6 +23,7 @@ import (
 	"testing"
 	"time"
 
+	stationlog "github.com/refraction-networking/conjure/pkg/station/log"
 	pb "github.com/refraction-networking/conjure/proto"
 	"google.golang.org/protobuf/proto"
 	"pgregory.net/rapid"
@@ -46,6 +48,14 @@ type c10History struct {
 }
 
 const c10Slack = 60 * time.Second
+
+// c10HookWriter calls a function for every line a logger writes.
+type c10HookWriter func(line []byte)
+
+func (f c10HookWriter) Write(p []byte) (int, error) {
+	f(p)
+	return len(p), nil
+}
 
 // c10RegTag is the session key the detector uses for traffic belonging to registration d.
 func c10RegTag(d *DecoyRegistration) (string, bool) {
@@ -73,6 +83,7 @@ func c10RunHistory(w *c10World, h c10History) (map[string]bool, *c10Viol, error)
 	now := time.Duration(0)                // virtual clock
 	sessions := map[string]time.Duration{} // detector: tag -> virtual instant the session lapses
 	var log []string
+	arrivals := 0
 
 	absorb := func() (*c10Viol, error) {
 		for _, p := range w.srv.Take() {
@@ -96,7 +107,11 @@ func c10RunHistory(w *c10World, h c10History) (map[string]bool, *c10Viol, error)
 					sessions[tag] = until
 				}
 			case pb.StationOperations_Clear:
+				// no history shuts the station down: a running station never tells the detector to
+				// drop every session (Cleanup() at shutdown is the only place for that)
+				n := len(sessions)
 				sessions = map[string]time.Duration{}
+				return c10V("clear:published-while-running", "the station published a clear request at t=%v while it is running (no shutdown in this history); the detector drops all %d sessions it held. history: %s", now, n, strings.Join(log, "; ")), nil
 			}
 		}
 		if errs := c10ClientHook.Since(hookMark); len(errs) > 0 {
@@ -140,11 +155,49 @@ func c10RunHistory(w *c10World, h c10History) (map[string]bool, *c10Viol, error)
 		case "sweep":
 			e.rm.RemoveOldRegistrations()
 			log = append(log, fmt.Sprintf("t=%v sweep", now))
+		case "sweep-arrival":
+			// A registration arrives DURING the sweep: at the debug line the sweeper writes between
+			// collecting the expired set (under the read lock) and acting on it. The sweeper gets
+			// its own logger for that (a log.Logger holds its mutex while writing, and the ingest
+			// path logs through the manager's logger).
+			arrivals++
+			am := c07Clone(h.Case).Msg
+			if len(am.Secret) >= 8 {
+				am.Secret[len(am.Secret)-1] ^= byte(arrivals)
+				am.Secret[0] ^= 0x5a
+			}
+			abytes := c07Build(am)
+			fired := false
+			var aerr error
+			hook := c10HookWriter(func(line []byte) {
+				if fired || !bytes.Contains(line, []byte("cleansing registrations")) {
+					return
+				}
+				fired = true
+				if _, err := e.deliver(abytes); errors.Is(err, errC07Harness) {
+					aerr = err
+				}
+			})
+			lg := stationlog.New(hook, "[SWEEP] ", 0)
+			lg.SetLevel(stationlog.DebugLevel)
+			expired, validExpired := e.rm.registeredDecoys.removeOldRegistrations(lg)
+			e.rm.AddExpiredRegs(int64(expired), int64(validExpired))
+			if aerr != nil {
+				return cl, nil, aerr
+			}
+			if !fired {
+				return cl, nil, fmt.Errorf("%w: the sweeper did not write its debug line between its phases; the arrival could not be placed", errC07Harness)
+			}
+			cl["history:arrival-during-sweep"] = true
+			if len(e.validRegs()) > 0 {
+				cl["history:arrival-during-sweep-admitted"] = true
+			}
+			log = append(log, fmt.Sprintf("t=%v sweep, with another registration arriving and being validated during it", now))
 		}
 		if v, err := absorb(); v != nil || err != nil {
 			return cl, v, err
 		}
-		if o.Kind != "sweep" {
+		if o.Kind != "sweep" && o.Kind != "sweep-arrival" {
 			continue
 		}
 		for _, until := range sessions {
@@ -193,7 +246,7 @@ func c10HistoryCheck(t vh.Fataler, rec *vh.Rec, w *c10World, h c10History) {
 // c10EnumHistories: every short history over a 7-symbol alphabet (part of the `lifetimes` sub-check).
 func c10EnumHistories(t *testing.T, rec *vh.Rec, w *c10World) {
 	alpha := []c10HOp{{Kind: "ingest"}, {Kind: "active"}, {Kind: "adv", DeltaS: 5 * 60}, {Kind: "adv", DeltaS: 7 * 60},
-		{Kind: "adv", DeltaS: 2*3600 + 59*60}, {Kind: "adv", DeltaS: 3*3600 + 5*60}, {Kind: "sweep"}}
+		{Kind: "adv", DeltaS: 2*3600 + 59*60}, {Kind: "adv", DeltaS: 3*3600 + 5*60}, {Kind: "sweep"}, {Kind: "sweep-arrival"}}
 	maxLen := vh.Pick(4, 5)
 	idx := 0
 	var gen func(prefix []c10HOp)
@@ -233,7 +286,7 @@ func c10GenHistory(rt *rapid.T) c10History {
 	n := rapid.IntRange(1, 14).Draw(rt, "n")
 	ops := []c10HOp{{Kind: "ingest"}}
 	for i := 0; i < n; i++ {
-		k := rapid.SampledFrom([]string{"adv", "ingest", "sweep", "active", "adv", "ingest", "sweep", "adv", "active", "adv"}).Draw(rt, "kind")
+		k := rapid.SampledFrom([]string{"adv", "ingest", "sweep", "active", "adv", "ingest", "sweep", "adv", "active", "adv", "sweep-arrival"}).Draw(rt, "kind")
 		o := c10HOp{Kind: k}
 		if k == "adv" {
 			o.DeltaS = rapid.SampledFrom(deltas).Draw(rt, "delta")
@@ -246,9 +299,9 @@ func c10GenHistory(rt *rapid.T) c10History {
 
 // TestVerif_C10_histories: generated messages x generated histories.
 func TestVerif_C10_histories(t *testing.T) {
-	rec := vh.NewRec("C10", "histories", "messages from C07's generator biased towards admission x histories [ingest] + 1-14 operations from {ingest the same message again, connection arrives (lookup, MarkActive, real Proxy with an unreachable covert), advance time by 1 min .. 6 h 2 min, sweep} + [sweep], through the real ingest path with the real sendToDetector publishing to the in-process RESP server. The detector's session table is modelled from the announcements actually published (timeout_ns counted from the moment each was published, the longer one kept). At every sweep point a registration the station still hands out must have a live session there (60 s slack): the station never accepts a registration for longer than it asked the detector to forward it. Non-trivial: the history re-delivers a registration that is still tracked, or marks one used. Distinct = (message, history).")
+	rec := vh.NewRec("C10", "histories", "messages from C07's generator biased towards admission x histories [ingest] + 1-14 operations from {ingest the same message again, connection arrives (lookup, MarkActive, real Proxy with an unreachable covert), advance time by 1 min .. 6 h 2 min, sweep, sweep during which another registration arrives and is validated} + [sweep], through the real ingest path with the real sendToDetector publishing to the in-process RESP server. The detector's session table is modelled from the announcements actually published (timeout_ns counted from the moment each was published, the longer one kept). At every sweep point a registration the station still hands out must have a live session there (60 s slack): the station never accepts a registration for longer than it asked the detector to forward it. Non-trivial: the history re-delivers a registration that is still tracked, or marks one used. Distinct = (message, history).")
 	defer rec.Flush()
-	rec.Require("history:duplicate-ingest", "history:sweep-past-detector-lifetime", "history:used", "history:still-served-and-forwarded", "history:re-ingest-after-expiry")
+	rec.Require("history:duplicate-ingest", "history:sweep-past-detector-lifetime", "history:used", "history:still-served-and-forwarded", "history:re-ingest-after-expiry", "history:arrival-during-sweep-admitted")
 	w := c10NewWorld(t, rec)
 	if p := vh.ReplayFile(); p != "" {
 		var h c10History
